@@ -19,7 +19,7 @@
        (`C01Graph.test_tasks_exact`), and an expansion of a disabled declaration is disabled at run time
        unless --force-disabled (`Run.testDisabledNow`), so that `C01Run.skipped_or_disabled_runs_nothing` applies.
 -/
-import LccModel.Lemmas.Expand
+import LccModel.Lemmas.ExpandRank
 import LccModel.Props.C01Graph
 
 namespace LccModel.C01Expand
@@ -54,7 +54,10 @@ theorem parametrized_declaration_one_test_per_set (d : TestDecl) (sets : List Pa
 /-! ### 2. What every expansion inherits -/
 
 /-- **Inheritance**: every test a declaration stands for has the declaration's `disabled` value (flag AND
-    reason), its tags, properties, links, rank and dependencies — parametrized or not, for every naming scheme. -/
+    reason), its tags, properties, links and dependencies — parametrized or not, for every naming scheme — and keeps
+    the declaration's PLACE among its siblings: `t.rank = d.rank` is the integer part of the loaded rank.  Since fix
+    N5 the rank itself is no longer copied verbatim: the variant of index `idx` gets `md.rank + idx / (idx + 1)`,
+    modelled by the pair `Test.key = (rank, sub)`; see `expansion_rank_position` below. -/
 theorem expansion_inherits (d : TestDecl) (t : Test) (ht : t ∈ expand d) :
     t.disabled = d.disabled ∧ t.md.tags = d.md.tags ∧ t.md.props = d.md.props ∧ t.md.links = d.md.links ∧
     t.deps = d.deps ∧ t.rank = d.rank := by
@@ -72,6 +75,33 @@ theorem expansion_inherits (d : TestDecl) (t : Test) (ht : t ∈ expand d) :
       simp only [hp] at ht
       obtain ⟨h1, h2, h3, h4, _⟩ := mem_expandSets (baseTest d) n sets 1 t ht
       refine ⟨h3, ?_, ?_, ?_, h4, h1⟩ <;> rw [h2] <;> rfl
+
+/-- **Rank after fix N5**: the expansions of a declaration stay at the declaration's position (`rank`), and among
+    themselves follow the order of the parameter sets (`sub` strictly increasing along `expand d`); a plain test is
+    `(d.rank, 0)`. -/
+theorem expansion_rank_position (d : TestDecl) :
+    (∀ t ∈ expand d, t.rank = d.rank) ∧ (expand d).Pairwise (fun a b => a.sub < b.sub) ∧
+    (d.param = none → ∀ t ∈ expand d, t.sub = 0) := by
+  refine ⟨fun t ht => (expansion_inherits d t ht).2.2.2.2.2, ?_, ?_⟩
+  · have hr : ∀ t ∈ expand d, t.rank = d.rank := fun t ht => (expansion_inherits d t ht).2.2.2.2.2
+    have hp := expand_pairwise d
+    have : ∀ l : List Test, (∀ t ∈ l, t.rank = d.rank) → l.Pairwise (fun a c => keyLt a c = true) → l.Pairwise (fun a b => a.sub < b.sub) := by
+      intro l
+      induction l with
+      | nil => intro _ _; exact List.Pairwise.nil
+      | cons x rest ih =>
+        intro hl hpw
+        rw [List.pairwise_cons] at hpw ⊢
+        refine ⟨fun c hc => ?_, ih (fun t ht => hl t (List.mem_cons_of_mem _ ht)) hpw.2⟩
+        rcases keyLt_iff.mp (hpw.1 c hc) with h | ⟨_, h⟩
+        · rw [hl x (List.mem_cons_self ..), hl c (List.mem_cons_of_mem _ hc)] at h; omega
+        · exact h
+    exact this _ hr hp
+  · intro hp t ht
+    unfold expand at ht
+    split at ht
+    · cases ht
+    · simp only [hp, List.mem_singleton] at ht; subst ht; rfl
 
 /-- in particular: **the expansions of a disabled declaration are all disabled** (and of an enabled one, enabled) -/
 theorem expansion_disabled_iff (d : TestDecl) (t : Test) (ht : t ∈ expand d) :
@@ -159,8 +189,13 @@ theorem loaded_suite_keeps_disabled (hd : ClsHead) (tests : List TestDecl) (subs
 theorem expanded_test_tasks_exact (cs : List SuiteDecl) (n : Nat) (force stop : Bool) :
     (graphOf (projOf (expandSuites cs) n force stop)).tasks.filter (fun t => t.kind == .test) =
       (suitesTests [] (expandSuites cs)).map (fun pt => (⟨.test, pt.1⟩ : TaskId)) := by
-  rw [C01Graph.test_tasks_exact, projTests_projOf, List.map_map]
-  rfl
+  rw [C01Graph.test_tasks_exact]
+  have h := projTests_projOf_paths (expandSuites cs) n force stop
+  have e : ∀ l : List (Path × TestSpec), l.map (fun pt => (⟨.test, pt.1⟩ : TaskId)) = (l.map (·.1)).map (fun p => (⟨.test, p⟩ : TaskId)) := by
+    intro l; rw [List.map_map]; rfl
+  have e' : ∀ l : List (Path × Test), l.map (fun pt => (⟨.test, pt.1⟩ : TaskId)) = (l.map (·.1)).map (fun p => (⟨.test, p⟩ : TaskId)) := by
+    intro l; rw [List.map_map]; rfl
+  rw [e, e', h]
 
 /-- … so their number is the number of expansions the visible classes declare -/
 theorem expanded_test_task_count (cs : List SuiteDecl) (n : Nat) (force stop : Bool) :
